@@ -342,6 +342,11 @@ func (l *linearPalette[T]) ReadFrom(r io.Reader) (n int64, err error) {
 	if size < 0 {
 		return n, errors.New("level: negative palette length")
 	}
+	// a palette of this width indexes at most 1<<bits entries; the declared length is tested before
+	// anything is allocated for it
+	if int(size) > 1<<l.bits {
+		return n, errors.New("level: palette length exceeds its width")
+	}
 	if int(size) > cap(l.values) {
 		l.values = make([]T, size)
 	} else {
@@ -408,6 +413,11 @@ func (h *hashPalette[T]) ReadFrom(r io.Reader) (n int64, err error) {
 	}
 	if size < 0 {
 		return n, errors.New("level: negative palette length")
+	}
+	// a palette of this width indexes at most 1<<bits entries; the declared length is tested before
+	// anything is allocated for it
+	if int(size) > 1<<h.bits {
+		return n, errors.New("level: palette length exceeds its width")
 	}
 	if int(size) > cap(h.values) {
 		h.values = make([]T, size)
